@@ -243,6 +243,9 @@ package inprocgrpc
 //@   loop loop#1 invariant[C01,C08] nothing_delivered_yet: !called("inprocgrpc.Cloner.Copy") && !called("(*inProcessClientStream).ensureNoMoreLocked") && !called("internal.TranslateContextError") && held(&s.respMu)
 //@   ensures[C01,C06] at_most_one_copy_into_the_callers_message: calls("inprocgrpc.Cloner.Copy") <= 1
 //@   assert_call[C06,C01] inprocgrpc.Cloner.Copy : into_the_callers_message: arg0 == s.cloner && arg1 == m
+//@   assert_call[C01,C06] inprocgrpc.Cloner.Copy : peeked_frame_first_else_the_frame_just_read: arg2 != nil && (!called(readMessage) ==> old(s.last) != nil && arg2 == old(s.last.data)) && (called(readMessage) ==> arg2 == lastresult(readMessage, 0).data)
+//@   ensures[C01] a_peeked_message_is_delivered_exactly_once: !lastMessage && !called(readMessage) && called("inprocgrpc.Cloner.Copy") && lastresult("inprocgrpc.Cloner.Copy") == nil ==> s.last == nil
+//@   assert_call[C01,C08] (*inProcessClientStream).ensureNoMoreLocked : the_delivered_frame_was_consumed_before_probing: arg0 == s && arg1 == m && (!called(readMessage) ==> s.last == nil)
 //@   ensures[C04,C02] every_failure_before_a_message_is_translated: !called("inprocgrpc.Cloner.Copy") ==> called("internal.TranslateContextError") && result == lastresult("internal.TranslateContextError")
 //@   ensures[C08] single_response_mode_checks_for_extra_messages: lastMessage && called("inprocgrpc.Cloner.Copy") && lastresult("inprocgrpc.Cloner.Copy") == nil ==> calls("(*inProcessClientStream).ensureNoMoreLocked") == 1 && result == lastresult("(*inProcessClientStream).ensureNoMoreLocked")
 //@   ensures[C01] streaming_mode_returns_the_copy_result: !lastMessage && called("inprocgrpc.Cloner.Copy") ==> result == lastresult("inprocgrpc.Cloner.Copy") && !called("(*inProcessClientStream).ensureNoMoreLocked")
@@ -308,10 +311,10 @@ package inprocgrpc
 //@ closure CloneFunc.copyFn
 //@   ensures[C18,C06] source_is_deep_cloned_first_exactly_once: calls("var:fn") == 1
 //@   assert_call[C18,C06] var:fn : of_the_source: arg0 == in$entry && !called("reflect.ValueOf")
-//@   ensures[C18] clone_failure_is_returned_and_destination_untouched: lastresult("var:fn", 1) != nil ==> result == lastresult("var:fn", 1) && !called("(reflect.Value).Set")
+//@   ensures[C18,C06] clone_failure_is_returned_and_destination_untouched: lastresult("var:fn", 1) != nil ==> result == lastresult("var:fn", 1) && !called("(reflect.Value).Set")
 //@   assert_call[C18,C06] reflect.ValueOf : first_the_clone_then_the_destination: (!called("reflect.ValueOf") ==> arg0 == lastresult("var:fn", 0)) && (called("reflect.ValueOf") ==> arg0 == out)
 //@   assert_call[C18,C06] (reflect.Value).Set : the_destination_receives_the_clone_not_the_source: arg0 == dest && arg1 == src && lastresult("(reflect.Value).CanSet")
-//@   ensures[C18] different_types_or_unsettable_are_refused: result == nil ==> calls("(reflect.Value).Set") == 1
+//@   ensures[C18,C06] different_types_or_unsettable_are_refused: result == nil ==> calls("(reflect.Value).Set") == 1
 //@   ensures[C18] at_most_one_set: calls("(reflect.Value).Set") <= 1
 //@   modifies external
 //
